@@ -223,6 +223,9 @@ func (t *Template) lookupAndEscapeTemplate(name string) (tmpl *Template, err err
 // prefixed by the string "; defined templates are: ". If there are none,
 // it returns the empty string. Used to generate an error message.
 func (t *Template) DefinedTemplates() string {
+	// Executions that fail contextual analysis modify the parse trees of the set under this lock.
+	t.nameSpace.mu.Lock()
+	defer t.nameSpace.mu.Unlock()
 	return t.text.DefinedTemplates()
 }
 
